@@ -802,11 +802,13 @@ pub fn run(_env: &Env, run: &Run) -> (Stats, Coverage) {
     for s in shards {
         st.merge(s);
     }
+    // (d) two generator pipelines (own inputs, own output files) at the same time in one process
+    let race = crate::race::race_pass("tools", run, &mut st);
     st.sample(json!({"UnicodeData": "0000 First..0001 Last (Lu,L); gap; 0003 First..0004 Last (Lu,L); 0005 (Mn,NSM)", "expected": "T_BIDI looks up 0005 as NSM, and 0003..0004 as L; T_UNASSIGNED = {0002, 0006..10FFFF}"}));
     st.sample(json!({"Scripts.txt": "0370..0371 ; P / 0372 ; P / 0373 ; Q (Q lines first)", "expected": "T_P = 0370-0372, T_Q = 0373, T_Z empty"}));
     st.sample(json!({"built": "all tables in OUT_DIR of precis-core and precis-profiles build scripts", "expected": "each denotes exactly what the repo's resource files assign, for every code point, and is binary-searchable"}));
     let cov = Coverage {
-        rule: format!("(a) every table the real build scripts just emitted (read from cargo's out_dir) x every code point, against an independent reader of the same input files; (b) every tiling of a {}-slot code-point window into {{gap, single entry, First/Last range}} with {} attribute bundles (gc/ccc/bidi/decomposition), at four window positions (0, mid-plane, ending at U+10FFFD, ending at U+10FFFE), through RustCodeGen+UcdFileGen+GeneralCategoryGen with UcdTableGen x4, UnassignedTableGen, ViramaTableGen, WidthMappingTableGen, BidiClassGen; (c) every assignment of {{none,P,Q}} to {} slots x every segmentation into single/range lines x both value-grouped orders and the fully reversed line order through UnicodeGen<Script> and, in rotation, the four other property-file types; oracle per table: denotation (merged intervals and values) equals what the input assigns, entries strictly increasing and disjoint, declared length = emitted length, and a binary search with the library's own expression over real precis_core::Codepoints finds exactly the members (window +-2 and far probes); bidi uses the library's default-L lookup semantics; non-trivial = inputs with at least one range and two entries / two lines", n, nb, pn),
+        rule: format!("(a) every table the real build scripts just emitted (read from cargo's out_dir) x every code point, against an independent reader of the same input files; (b) every tiling of a {}-slot code-point window into {{gap, single entry, First/Last range}} with {} attribute bundles (gc/ccc/bidi/decomposition), at four window positions (0, mid-plane, ending at U+10FFFD, ending at U+10FFFE), through RustCodeGen+UcdFileGen+GeneralCategoryGen with UcdTableGen x4, UnassignedTableGen, ViramaTableGen, WidthMappingTableGen, BidiClassGen; (c) every assignment of {{none,P,Q}} to {} slots x every segmentation into single/range lines x both value-grouped orders and the fully reversed line order through UnicodeGen<Script> and, in rotation, the four other property-file types; (d) race-detector pass: every pair of 15 generator / registry-parser pipelines (own inputs, own outputs) on two free-running threads under ThreadSanitizer, outputs compared with the single-threaded ones; oracle per table: denotation (merged intervals and values) equals what the input assigns, entries strictly increasing and disjoint, declared length = emitted length, and a binary search with the library's own expression over real precis_core::Codepoints finds exactly the members (window +-2 and far probes); bidi uses the library's default-L lookup semantics; non-trivial = inputs with at least one range and two entries / two lines", n, nb, pn),
         alphabet: json!({"bundles": BUNDLES.iter().take(nb as usize).map(|b| format!("{};{};{};{}", b.0, b.1, b.2, b.3)).collect::<Vec<_>>(), "window_bases": bases.iter().map(|b| format!("{:04X}", b)).collect::<Vec<_>>()}),
         bound_completed: format!("{} UnicodeData tilings x 4 positions; {} property-file configurations x 2 file types; built tables: all code points", nconf, npconf),
         exhaustive: false,
@@ -814,7 +816,7 @@ pub fn run(_env: &Env, run: &Run) -> (Stats, Coverage) {
             "windows never contain U+10FFFF itself: UnassignedTableGen computes `last + 1` as a Codepoint and reports an error for an entry at U+10FFFF, which no real UnicodeData can contain (noncharacter)".into(),
             "degenerate Range(s>e) entries denote nothing and are reported as a count, not as violations".into(),
         ],
-        extra: json!({}),
+        extra: json!({"race_detector_pass": race}),
     };
     (st, cov)
 }
@@ -822,6 +824,7 @@ pub fn run(_env: &Env, run: &Run) -> (Stats, Coverage) {
 pub fn replay(_env: &Env, case: &Case) -> Vec<Violation> {
     let mut st = Stats::default();
     match case.op.as_str() {
+        "race" => st.violations = crate::race::replay(case),
         "built_table" => {
             let mut all = Stats::default();
             check_built_tables(&mut all);
